@@ -152,6 +152,8 @@ func allProps() []PropSpec {
 			ID: "C09",
 			Harnesses: []HarnessSpec{
 				{Func: "ZZ_C09_H1", Pkg: "pkg/protocol/http1", Covers: []string{"reached-assert"}, MaxSteps: 4000000},
+				{Func: "ZZ_C09_H3", Pkg: "pkg/protocol", Covers: []string{"reached-assert"}, Note: "type-directed havoc of URI/Args/Cookie/Trailer/RequestHeader/ResponseHeader/Request/Response, then Reset, field-by-field comparison with a fresh object"},
+				{Func: "ZZ_C09_H4", Pkg: "pkg/app", Covers: []string{"reached-assert"}, Note: "same for RequestContext.Reset / ResetWithoutConn"},
 				{Func: "ZZ_C09_H2", Pkg: "pkg/protocol", Covers: []string{"reached-assert", "same-object-reissued"}, Note: "AcquireURI/Cookie/Request/Response after Release: 12 mutators each, pairs"},
 				{Func: "ZZ_C14_H2", Pkg: "pkg/protocol/http1", Covers: []string{"reached-assert", "both-handled"}, Note: "pooled body stream reused on another connection after a failed release"},
 			},
